@@ -20,6 +20,9 @@ type e2eShard struct {
 	tr    *core.TLCResult
 	sum   E2ESummary
 	err   error
+	// werr: the worker gave up in a controlled way (exit 65) after recording part of its script; what it
+	// recorded is still validated, and a violation found in it counts (every line is a complete observation)
+	werr error
 }
 
 // n4For returns a loopback address private to this check run and shard.
@@ -67,8 +70,14 @@ func runE2EMixed(c *core.Ctx, nshards int, cfg string, mk func(i int) (string, i
 			}
 
 			if r.wr.ExitCode != 0 || r.wr.TimedOut {
-				r.err = fmt.Errorf("worker failed: exit=%d timeout=%v err=%q: %s", r.wr.ExitCode, r.wr.TimedOut, r.sum.Err, tail(r.wr.Stderr, 600))
-				return
+				werr := fmt.Errorf("worker failed: exit=%d timeout=%v err=%q: %s", r.wr.ExitCode, r.wr.TimedOut, r.sum.Err, tail(r.wr.Stderr, 600))
+
+				if st, err := os.Stat(r.trace); r.wr.ExitCode != 65 || r.wr.TimedOut || err != nil || st.Size() == 0 {
+					r.err = werr
+					return
+				}
+
+				r.werr = werr
 			}
 
 			if st, err := os.Stat(r.trace); err != nil || st.Size() == 0 {
@@ -121,6 +130,8 @@ func judgeE2E(c *core.Ctx, res []e2eShard, structural map[string]bool) {
 		}
 
 		switch {
+		case r.werr != nil && (r.tr.Violated == "" || structural[r.tr.Violated]) && !r.tr.PostFailed:
+			c.Inconclusive("shard %d: %v", r.idx, r.werr)
 		case r.tr.Violated != "" && structural[r.tr.Violated]:
 			c.Inconclusive("shard %d: structural check %s failed at trace line %d (generator left its envelope)", r.idx, r.tr.Violated, traceLineOfFailure(r.tr))
 		case r.tr.Violated != "" || r.tr.PostFailed:
